@@ -9,7 +9,7 @@ import (
 
 func init() {
 	register(&PropDef{
-		ID: "C10", Level: "exploration", Quick: 4000, Thorough: 400000, QuickCap: 100,
+		ID: "C10", Level: "exploration", Quick: 12000, Thorough: 400000, QuickCap: 100,
 		Rule: "each run = one store and one wall-clock configuration (baseline: strictly increasing; fault configurations, counted separately: stalled/coarse clock, backward step), 3-40 back-to-back requests on 2-3 names: writes by every protocol, compose, copy-to, patches with one/many/zero fields and with bodies that also name read-only fields (md5Hash, generation, size, name, bucket), reads, listings, failing requests (bad MD5, failing preconditions), delete and re-create, file-store restarts; laws checked over the whole history: fresh and greater generation per content write and metageneration 1, patch => metageneration+1 with only the supplied fields merged and generation/content/size/MD5 unchanged, nothing else changes either number, and headers / upload responses / metadata GETs / listings agree; distinct = hash of (store, clock mode, shapes); non-trivial = at least 2 content writes to one name",
 		Real: []string{"gcsemu memstore.Add/UpdateMeta/Copy, filestore.Add/UpdateMeta/ReadMeta (mtime as generation), upload/patch/compose/copy handlers, listing"},
 		Stub: []string{"wall clock (simulator-owned: increasing, stalled or stepping back)", "HTTP connections (recorder)"},
